@@ -296,7 +296,8 @@ fn run(a: &Args) {
             case += 1;
             let damaged = view(&b, &numbers, ParseOptions::lenient());
             let skip = view(&b, &numbers, ParseOptions::skip_errors());
-            out.line(&json!({"ev": "damaged", "case": case, "base": bname, "ops": d["ops"], "lenient": damaged, "skip_errors": skip,
+            let tolerant = view(&b, &numbers, ParseOptions::tolerant());
+            out.line(&json!({"ev": "damaged", "case": case, "base": bname, "ops": d["ops"], "lenient": damaged, "skip_errors": skip, "tolerant": tolerant,
                              "tail": String::from_utf8_lossy(&b[b.len().saturating_sub(700)..])}));
         }
     }
